@@ -86,10 +86,17 @@ type factState struct {
 	eq   map[string]string          // key -> constant (ExactString) it equals
 	neq  map[string]map[string]bool // key -> constants excluded
 	rets map[string]string          // call result key -> "true" | "false" | "err" | "nil" (interprocedural search)
+	phis map[string]bool            // boolean phis whose value is decided by the path taken so far
 }
 
 func (s *factState) clone() *factState {
 	n := &factState{eq: map[string]string{}, neq: map[string]map[string]bool{}, rets: map[string]string{}}
+	if len(s.phis) > 0 {
+		n.phis = map[string]bool{}
+		for k, v := range s.phis {
+			n.phis[k] = v
+		}
+	}
 	for k, v := range s.eq {
 		n.eq[k] = v
 	}
@@ -116,6 +123,9 @@ func (s *factState) String() string {
 	}
 	for k, v := range s.rets {
 		parts = append(parts, k+"=>"+v)
+	}
+	for k, v := range s.phis {
+		parts = append(parts, fmt.Sprintf("%s:=%v", k, v))
 	}
 	for k, m := range s.neq {
 		var cs []string
@@ -525,6 +535,48 @@ func (q *Query) Search(from Point) []Point {
 		b := n.pt.B
 		blocked := false
 		cur := n.st
+		if n.pred != nil && n.pt.I == 0 {
+			// boolean phis of this block take the value of the edge the path arrived over
+			for _, pin := range b.Instrs {
+				phi, isPhi := pin.(*ssa.Phi)
+				if !isPhi {
+					break
+				}
+				bt, isB := phi.Type().Underlying().(*types.Basic)
+				if !isB || bt.Kind() != types.Bool {
+					continue
+				}
+				var e ssa.Value
+				for pi, p := range b.Preds {
+					if p == n.pred && pi < len(phi.Edges) {
+						e = phi.Edges[pi]
+					}
+				}
+				if e == nil {
+					continue
+				}
+				known, val := false, false
+				if k, isC := e.(*ssa.Const); isC && k.Value != nil && k.Value.Kind() == constant.Bool {
+					known, val = true, k.Value.ExactString() == "true"
+				} else if v, has := cur.phis[ValueKey(e)]; has {
+					known, val = true, v
+				} else if boolResolver != nil {
+					val, known = boolResolver(e, cur)
+				}
+				key := ValueKey(phi)
+				if _, had := cur.phis[key]; had || known {
+					cur = cur.clone()
+					if cur.phis == nil {
+						cur.phis = map[string]bool{}
+					}
+					if known {
+						cur.phis[key] = val
+					} else {
+						delete(cur.phis, key)
+					}
+				}
+			}
+		}
 		for i := n.pt.I; i < len(b.Instrs); i++ {
 			in := b.Instrs[i]
 			if n.fr != nil {
@@ -628,6 +680,19 @@ func (q *Query) Search(from Point) []Point {
 				pc, known, kval := pathCond(ifi, n.pred)
 				if !known && len(n.st.rets) > 0 {
 					known, kval = retCond(n.st, pc)
+				}
+				if !known && len(n.st.phis) > 0 {
+					pv, pneg := pc, false
+					for {
+						u, ok := pv.(*ssa.UnOp)
+						if !ok || u.Op != token.NOT {
+							break
+						}
+						pneg, pv = !pneg, u.X
+					}
+					if v, has := n.st.phis[ValueKey(pv)]; has {
+						known, kval = true, v != pneg
+					}
 				}
 				if known && kval != want {
 					continue
